@@ -33,7 +33,16 @@ WORLDS = {
     "x23F": [("x", (2, 3), 0, False, "F")],
     "x33": [("x", (3, 3), 0, False)],
 }
-BOUNDS = {"quick": [("x4", 3), ("x23", 3), ("x22", 3), ("x23F", 3)], "thorough": [("x4", 4), ("x23", 4), ("x22", 4), ("x23F", 4), ("x33", 3)]}
+# thorough: every permutation of the terminal's terms at depth 3 on five bases, and depth 4 on a sub-alphabet (the full alphabet at
+# depth 4 is ~20x the quick tier's 3.2 M executions and did not finish within a 4 h run)
+WORLDS["x4sub"] = WORLDS["x4"]
+WORLDS["x23Fsub"] = WORLDS["x23F"]
+CFG_SUB = dict(CFG, views=("s1", "rev", "T", "flat", "na", "dg"), ops1=("mul2", "sumc"))
+BOUNDS = {"quick": [("x4", 3), ("x23", 3), ("x22", 3), ("x23F", 3)], "thorough": [("x4", 3), ("x23", 3), ("x22", 3), ("x23F", 3), ("x33", 3), ("x4sub", 4), ("x23Fsub", 4)]}
+
+
+def cfg_of(wname):
+    return CFG_SUB if wname.endswith("sub") else CFG
 
 
 FULL_PERMS = False  # thorough tier: every permutation of 4 terms (24); quick: rotations and reversals (8)
@@ -247,7 +256,7 @@ def run_task(task):
         if len(acc.samples) < 1 and len(h) == depth and has_view:
             acc.samples.append("; ".join(render(s) for s in h) + "; L = sum of (w_i*t_i).sum() in every order of the terms; L.backward()")
         if len(h) < depth and not failed:
-            for st in reversed(explore.enabled(m, CFG, "t%d" % len(h))):
+            for st in reversed(explore.enabled(m, cfg_of(wname), "t%d" % len(h))):
                 stack.append(h + [st])
     return acc
 
@@ -257,12 +266,12 @@ def plan(tier, seed):
     for wname, depth in BOUNDS[tier]:
         init = WORLDS[wname]
         tasks.append((wname, [], 0, seed, tier))
-        for p in explore.prefixes(init, CFG, 1, seed):
+        for p in explore.prefixes(init, cfg_of(wname), 1, seed):
             if depth >= 4:
                 tasks.append((wname, p, 1, seed, tier))
                 m = Model(init, seed=seed)
                 m.apply(p[0])
-                for st in explore.enabled(m, CFG, "t1"):
+                for st in explore.enabled(m, cfg_of(wname), "t1"):
                     tasks.append((wname, p + [st], depth, seed, tier))
             else:
                 tasks.append((wname, p, depth, seed, tier))
